@@ -1,0 +1,16 @@
+//go:build verif
+
+package decorator
+
+import (
+	"os"
+
+	"github.com/dave/dst/decorator/resolver"
+)
+
+// VerifSave exposes Package.save's injected writeFile parameter to the verification harness so
+// that a simulated disk can stand in for ioutil.WriteFile. It exists only in builds with the
+// "verif" tag; it adds no behaviour.
+func (p *Package) VerifSave(resolver resolver.RestorerResolver, writeFile func(filename string, data []byte, perm os.FileMode) error) error {
+	return p.save(resolver, writeFile)
+}
